@@ -73,9 +73,101 @@ pub fn run(ctx: &Ctx) -> i32 {
                         case: case(),
                         sig: format!("pixel-mismatch:mode{}", m),
                         detail: format!("{} pixels differ; first: {} -> library {:?}, Aseprite reference {:?}", nbad, describe_px(*m, sp.b[k], sp.s[k], sp.lo, sp.co), got[k].to_le_bytes(), expect[k].to_le_bytes()),
-                        bytes: Some(sprite(*m, &Spec { w: 1, h: 1, b: vec![sp.b[k]], s: vec![sp.s[k]], lo: sp.lo, co: sp.co, via_tilemap: sp.via_tilemap, flags: sp.flags })),
+                        bytes: Some(sprite(*m, &Spec { w: 1, h: 1, b: vec![sp.b[k]], s: vec![sp.s[k]], lo: sp.lo, co: sp.co, via_tilemap: sp.via_tilemap, flags: sp.flags, pad: 0 })),
                         extra: json!({"mode": m, "backdrop": sp.b[k].to_le_bytes(), "source": sp.s[k].to_le_bytes(), "layer_opacity": sp.lo, "cel_opacity": sp.co, "library": got[k].to_le_bytes(), "reference": expect[k].to_le_bytes(), "replay_file_is": "a 1x1 two-layer sprite with exactly this pixel pair"}),
                     });
+                }
+            }
+        });
+    }
+
+    // several blended layers in one frame: the mode of one layer must not leak into another
+    if ctx.wants_family("mode-pairs") {
+        use crate::common::{load, Loaded};
+        use mc_core::ase::*;
+        use mc_core::gen;
+        let colours: [(u32, u32); 8] = [
+            (px(200, 120, 40, 255), px(60, 180, 220, 255)),
+            (px(200, 120, 40, 255), px(60, 180, 220, 128)),
+            (px(200, 120, 40, 130), px(60, 180, 220, 255)),
+            (px(10, 250, 128, 77), px(240, 5, 127, 200)),
+            (px(255, 255, 255, 255), px(1, 1, 1, 254)),
+            (px(0, 0, 0, 255), px(128, 128, 128, 255)),
+            (px(90, 90, 90, 1), px(200, 10, 100, 255)),
+            (px(33, 66, 99, 255), px(33, 66, 99, 255)),
+        ];
+        let ops = [(255u8, 255u8), (200, 160)];
+        let mut cases: Vec<(u16, u16, usize, usize)> = Vec::new();
+        for m1 in 0..19u16 {
+            for m2 in 0..19u16 {
+                for c in 0..colours.len() {
+                    for o in 0..ops.len() {
+                        cases.push((m1, m2, c, o));
+                    }
+                }
+            }
+        }
+        ctx.family("mode-pairs", cases.len() as u64, "a 3x1 frame with a Normal base layer of one colour B under two further layers of modes m1 and m2 (all 19 x 19 ordered pairs) whose 1x1 cels hold the same source colour S with the same opacities, at x=0 and x=1, and both at x=2 (m2 over the result of m1): 8 (B,S) pairs x 2 opacity pairs; every pixel compared with the C++ reference applied layer by layer", true);
+        cases.par_iter().for_each(|(m1, m2, ci, oi)| {
+            let case = || format!("m1={} m2={} colours#{} ops#{}", m1, m2, ci, oi);
+            if !ctx.wants("mode-pairs", &case) {
+                return;
+            }
+            let (b, s) = colours[*ci];
+            let (lo, co) = ops[*oi];
+            let op = blend::mul_un8(lo, co);
+            let fmt = mc_core::sem::Fmt::Rgba;
+            let mut f = gen::file(3, 1, &fmt, &[1]);
+            f.frames[0].push(Body::Layer(Layer::image("base")));
+            for (nm, m) in [("one", m1), ("two", m2)] {
+                let mut l = Layer::image(nm);
+                l.blend = *m;
+                l.opacity = lo;
+                f.frames[0].push(Body::Layer(l));
+            }
+            let bb: Vec<u8> = [b, b, b].iter().flat_map(|p| p.to_le_bytes()).collect();
+            f.frames[0].push(gen::raw_cel(0, 0, 0, 255, 3, 1, bb));
+            // layer 1 covers x=0 and x=2, layer 2 covers x=1 and x=2
+            let s2: Vec<u8> = [s, 0, s].iter().flat_map(|p| p.to_le_bytes()).collect();
+            f.frames[0].push(gen::raw_cel(1, 0, 0, co, 3, 1, s2));
+            f.frames[0].push(gen::raw_cel(2, 1, 0, co, 2, 1, [s, s].iter().flat_map(|p| p.to_le_bytes()).collect()));
+            let bytes = f.encode();
+            let one = |m: u16, bd: u32| -> (u32, u8) {
+                let (mut e, mut fl) = ([0u32; 1], [0u8; 1]);
+                blend::blend_row(m as usize, &[bd], &[s], op, &mut e, &mut fl);
+                (e[0], fl[0])
+            };
+            let (e0, f0) = one(*m1, b);
+            let (e1, f1) = one(*m2, b);
+            let (e2, f2) = one(*m2, e0);
+            let expect = [(e0, f0), (e1, f1), (e2, f0 | f2)];
+            ctx.eval_n(3, 3);
+            let got: Vec<u32> = match load(&bytes) {
+                Loaded::Ok(file) => {
+                    let mut p = Vec::new();
+                    match crate::observe::guarded(&mut p, || "frame(0).image".into(), || file.frame(0).image()) {
+                        Some(i) => i.into_raw().chunks_exact(4).map(|c| u32::from_le_bytes([c[0], c[1], c[2], c[3]])).collect(),
+                        None => {
+                            ctx.violation(Violation { family: "mode-pairs".into(), case: case(), sig: format!("render-failed:{}", crate::common::sig_of(&p[0].1)), detail: p[0].1.clone(), bytes: Some(bytes), extra: json!({}) });
+                            return;
+                        }
+                    }
+                }
+                _ => {
+                    ctx.violation(Violation { family: "mode-pairs".into(), case: case(), sig: "render-failed:load".into(), detail: "the sprite does not load".into(), bytes: Some(bytes), extra: json!({}) });
+                    return;
+                }
+            };
+            ctx.outcome(hash64(&got));
+            for x in 0..3 {
+                let (e, fl) = expect[x];
+                if fl & blend::FLAG_UB != 0 {
+                    continue;
+                }
+                let g = got[x];
+                if e != g && !((e >> 24) == 0 && (g >> 24) == 0) {
+                    ctx.violation(Violation { family: "mode-pairs".into(), case: case(), sig: format!("pixel-mismatch:layers-interfere:x{}", x), detail: format!("pixel x={}: library {:?}, reference {:?} (B={:?} S={:?} opacity {} ; layer modes {} then {})", x, g.to_le_bytes(), e.to_le_bytes(), b.to_le_bytes(), s.to_le_bytes(), op, blend::MODE_NAMES[*m1 as usize], blend::MODE_NAMES[*m2 as usize]), bytes: Some(bytes.clone()), extra: json!({}) });
+                    break;
                 }
             }
         });
